@@ -8,8 +8,11 @@ import (
 	plrt "github.com/GuanceCloud/platypus/pkg/engine/runtime"
 	"github.com/GuanceCloud/platypus/pkg/inimpl/guancecloud/input"
 
+	"github.com/GuanceCloud/platypus/pkg/engine/runtimev2"
+
 	"verif/internal/drive"
 	"verif/internal/gt"
+	"verif/internal/mon"
 	"verif/internal/ref"
 )
 
@@ -222,3 +225,71 @@ func compareRun(real drive.Outcome, model ref.Outcome, o cmpOpts) *runCmp {
 }
 
 type scriptT = plrt.Script
+
+// againV1 is the "no memory" pass shared by the interpreter monitors: the
+// same loaded script run once more on a fresh copy of the point, and (when
+// reload is set) the same text loaded once more under the same name and run,
+// must both meet the reference outcome mo that the first run met. A loaded
+// script keeps nothing from a run, and loading depends on the text alone;
+// caches, memos and pooled buffers filled by the first load or run are what
+// this pass looks at. Returns false after reporting a violation.
+func againV1(c *mon.Ctx, script *scriptT, name, src string, mp *ref.Point, after *ref.Point, mo ref.Outcome, reload bool, suffix string, info any) bool {
+	if mo.Unspecified != "" || mo.Budget || mo.TooBig || mo.Shared.MapOrderDependent {
+		return true
+	}
+	real2 := drive.PointFromModel(mp)
+	ro2 := drive.RunV1(script, real2, &drive.RunState{Budget: realBudget(mo.Shared.Steps)})
+	c.Eval(1)
+	c.Count("second_runs_of_the_same_loaded_script", 1)
+	if r := compareRun(ro2, mo, cmpOpts{Point: after, RealPoint: real2}); r != nil {
+		c.Violate("second-run-differs:"+r.Class+suffix, fmt.Sprintf("the SECOND run of the same loaded script differs from the reference (the first run agreed): %s\n--- program\n%s", r.Detail, src), info)
+		return false
+	}
+	if !reload {
+		return true
+	}
+	s3, err := drive.LoadV1One(name, src)
+	if err != nil {
+		c.Violate("second-load-rejected"+suffix, fmt.Sprintf("the text was accepted by the first load and rejected by the second: %v\n%s", err, src), info)
+		return false
+	}
+	real3 := drive.PointFromModel(mp)
+	ro3 := drive.RunV1(s3, real3, &drive.RunState{Budget: realBudget(mo.Shared.Steps)})
+	c.Eval(1)
+	c.Count("runs_of_a_second_load_of_the_same_text", 1)
+	if r := compareRun(ro3, mo, cmpOpts{Point: after, RealPoint: real3}); r != nil {
+		c.Violate("second-load-differs:"+r.Class+suffix, fmt.Sprintf("the run of a SECOND load of the same text differs from the reference (the first load's run agreed): %s\n--- program\n%s", r.Detail, src), info)
+		return false
+	}
+	return true
+}
+
+// againV2 is againV1 for the v2 interpreter (no point).
+func againV2(c *mon.Ctx, script *runtimev2.Script, name, src string, mo ref.Outcome, reload bool, suffix string, info any) bool {
+	if mo.Unspecified != "" || mo.Budget || mo.TooBig || mo.Shared.MapOrderDependent {
+		return true
+	}
+	ro2 := drive.RunV2(script, &drive.RunState{Budget: realBudget(mo.Shared.Steps)})
+	c.Eval(1)
+	c.Count("second_runs_of_the_same_loaded_script", 1)
+	if r := compareRun(ro2, mo, cmpOpts{V2: true}); r != nil {
+		c.Violate("second-run-differs:"+r.Class+suffix, fmt.Sprintf("the SECOND run of the same loaded script (v2) differs from the reference (the first run agreed): %s\n--- program\n%s", r.Detail, src), info)
+		return false
+	}
+	if !reload {
+		return true
+	}
+	s3, err := drive.LoadV2(name, src)
+	if err != nil {
+		c.Violate("second-load-rejected"+suffix, fmt.Sprintf("the text was accepted by the first load and rejected by the second (v2): %v\n%s", err, src), info)
+		return false
+	}
+	ro3 := drive.RunV2(s3, &drive.RunState{Budget: realBudget(mo.Shared.Steps)})
+	c.Eval(1)
+	c.Count("runs_of_a_second_load_of_the_same_text", 1)
+	if r := compareRun(ro3, mo, cmpOpts{V2: true}); r != nil {
+		c.Violate("second-load-differs:"+r.Class+suffix, fmt.Sprintf("the run of a SECOND load of the same text (v2) differs from the reference: %s\n--- program\n%s", r.Detail, src), info)
+		return false
+	}
+	return true
+}
